@@ -241,6 +241,33 @@ func factsDecode(repo string, o *out) {
 	}
 	o.def("decode_deepcopy_nil_check", "nat", fmt.Sprint(dcNil))
 
+	// --- internal/execext: ExpandLiteral indexes words[0] ---
+	exl := 99
+	if fd := load(filepath.Join(repo, "internal/execext")).funcDecl("", "ExpandLiteral"); fd != nil && fd.Body != nil {
+		idx0 := ""
+		ast.Inspect(fd.Body, func(x ast.Node) bool {
+			if ie, ok := x.(*ast.IndexExpr); ok {
+				if bl, ok := ie.Index.(*ast.BasicLit); ok && bl.Value == "0" {
+					idx0 = exprStr(ie.X)
+				}
+			}
+			return true
+		})
+		lenChecked := false
+		ast.Inspect(fd.Body, func(x ast.Node) bool {
+			if ce, ok := x.(*ast.CallExpr); ok && exprStr(ce.Fun) == "len" && len(ce.Args) == 1 && exprStr(ce.Args[0]) == idx0 {
+				lenChecked = true
+			}
+			return true
+		})
+		if idx0 == "" || lenChecked {
+			exl = 1
+		} else {
+			exl = 0
+		}
+	}
+	o.def("decode_expand_literal_len_check", "nat", fmt.Sprint(exl))
+
 	// --- errors/errors.go: the exit-code constants ---
 	var codes []string
 	if f, ok := errp.files["errors.go"]; ok {
